@@ -152,6 +152,18 @@ for _k, _found in {"C01": {**L0_FIELD_CORE, **L0_SCALAR}, "C02": {**L0_FIELD_COR
         PROPS[_k]["streams"] = PROPS[_k]["streams"] + [("F2", 1500)]
     if _found is not L0_FIELD_CORE and _found is not L0_FIELD and "S1" not in _have:
         PROPS[_k]["streams"] = PROPS[_k]["streams"] + [("S1", 1200)]
+# Field-level programs (go2ir -flevel): the formulas of curve/models.go / edwards.go / montgomery.go and the addition chains of
+# field.go are REGENERATED; these theorems are about the regenerated programs (value: FL.Curve/Models/Field; limb-bound
+# chaining through both backends against the contracts the L0 obligations prove: FL.Bounds).
+_FL_CURVE = reg("Voi.Props.FL.Curve", "Voi.Props.FL.Models")
+_FL_FIELD = reg("Voi.Props.FL.Field")
+_FL_BOUNDS = reg("Voi.Props.FL.Bounds")
+for _k, _t in {"C03": {**_FL_CURVE, **_FL_BOUNDS}, "C04": {**_FL_FIELD, **_FL_BOUNDS}, "C06": _FL_BOUNDS, "C07": {**_FL_FIELD, **_FL_BOUNDS},
+               "C10": _FL_CURVE, "C11": _FL_CURVE}.items():
+    PROPS[_k]["theorems"] = {**PROPS[_k]["theorems"], **_t}
+    PROPS[_k]["gens"] = sorted(set(PROPS[_k].get("gens") or []) | {"go2ir", "flevel"})
+    # T2: the real functions against the regenerated field-level programs (validates the field-level translator); serial builds only
+    PROPS[_k]["streams"] = PROPS[_k]["streams"] + [("T2", 3000, {"configs": ["purego", "force32bit"]})]
 NOT_YET = {}
 for _k, _c in PROPS.items():
     assert _c.get("configs_quick") and _c.get("configs_thorough"), "property %s lacks a configuration list" % _k
